@@ -87,7 +87,7 @@ func TestVerifC07Request(t *testing.T) {
 		methods = []string{"GET", "HEAD", "POST", "PUT", "DELETE", "OPTIONS"}
 	}
 	paths := []string{"/", "/foo", "/foo/bar", "/foo%2Fbar/x", "/foo/a%20b", "/foo//x", "/foobar", "/foo/a%2Fb"}
-	queries := []string{"", "a=1", "a=1&b=%2F"}
+	queries := []string{"", "a=1", "a=1&b=%2F", "b=2&a=1&flag&x=a%20b&p=:/%7e&b=1"} // the last one is not in the canonical form url.Values.Encode would give it
 	var cases []c07Case
 	for _, m := range methods {
 		bodies := []int{0}
